@@ -191,6 +191,30 @@ def _replay(v):
                     if f["kind"] == "register":
                         if W.subset({"register": {"protocol_version": 1, "options": 0}}, cip):
                             out.append("register fields differ")
+                    elif f["kind"] == "identity":
+                        it = f["item"]
+                        chk = {"version": it["version"], "sin_family": it["family"], "sin_port": it["port"], "sin_addr": ".".join(str(o) for o in it["addr"]),
+                               "vendor_id": it["vendor"], "device_type": it["devtype"], "product_code": it["product"], "product_revision": it["revision"],
+                               "status_word": it["status"], "serial_number": int.from_bytes(bytes(bytearray(it["serial"])), "little"),
+                               "product_name": bytes(bytearray(it["name"])).decode("iso-8859-1"), "state": it["state"]}
+                        li = cip.list_identity.CPF
+                        d = W.subset(chk, li.item[0].identity_object) if li.count == 1 and li.item[0].type_id == 0x0C else ["no identity item"]
+                        if d:
+                            out.append("identity item fields differ: %s" % d[:3])
+                        # produce from the fields alone
+                        mine = W.dd({"CPF": {"item": [{"type_id": 0x0C, "identity_object": chk}]}})
+                        if bytes(parser.list_identity.produce(mine)) != bytes(bytearray(f["payload"])):
+                            out.append("list_identity.produce(fields) = %s, layout tables say %s" % (bytes(parser.list_identity.produce(mine)).hex(), bytes(bytearray(f["payload"])).hex()))
+                    elif f["kind"] == "services":
+                        it = f["item"]
+                        chk = {"version": it["version"], "capability": it["capability"], "service_name": bytes(bytearray(it["name"])).decode("iso-8859-1")}
+                        ls = cip.list_services.CPF
+                        d = W.subset(chk, ls.item[0].communications_service) if ls.count == 1 and ls.item[0].type_id == 0x100 else ["no services item"]
+                        if d:
+                            out.append("services item fields differ: %s" % d[:3])
+                        mine = W.dd({"CPF": {"item": [{"type_id": 0x100, "communications_service": chk}]}})
+                        if bytes(parser.list_services.produce(mine)) != bytes(bytearray(f["payload"])):
+                            out.append("list_services.produce(fields) differs")
                     elif f["kind"] in ("rr", "unit"):
                         sd = cip.send_data
                         chk = {"interface": 0, "timeout": f.get("tmo", 0), "CPF": {"count": 2}}
